@@ -2,7 +2,7 @@
 import checks_adv
 
 CHECKS = {}
-for _p in ("C06", "C07", "C08", "C09"):
+for _p in ("C04", "C06", "C07", "C08", "C09"):
     CHECKS[_p] = checks_adv.make(_p)
 
 import checks_dial
